@@ -419,7 +419,10 @@ def inline_local_functions(tree):
                 if isinstance(x, ast.comprehension):
                     own |= {t.id for t in ast.walk(x.target) if isinstance(t, ast.Name)}
             free = {x.id for x in ast.walk(expr) if isinstance(x, ast.Name) and isinstance(x.ctx, ast.Load)} - own
-            if free & (fn_locals - {nm}) or nm in free:
+            # parameters of the enclosing function that are never re-bound mean the same wherever the expression is evaluated
+            stable = {x.arg for x in fa.posonlyargs + fa.args + fa.kwonlyargs} - \
+                {x.id for x in ast.walk(fn) if isinstance(x, ast.Name) and isinstance(x.ctx, (ast.Store, ast.Del))}
+            if free & (fn_locals - {nm} - stable) or nm in free:
                 continue
             binds = [x for x in ast.walk(fn) if (isinstance(x, ast.Name) and x.id == nm and isinstance(x.ctx, (ast.Store, ast.Del)))
                      or (isinstance(x, ast.FunctionDef) and x.name == nm and x is not fn)]
@@ -624,6 +627,7 @@ class ModuleInfo:
         unfold_any_over_local_function(self.tree)
         uncache_attribute_locals(self.tree)
         canonicalise(self.tree)
+        uncache_attribute_locals(self.tree)      # tuple assignments were split by canonicalise
         sink_returns(self.tree)
         self.star_imports = []     # module names (package-local or external)
         self.names = {}            # local name -> ('class'|'func'|'module'|'external'|'var', target)
@@ -721,6 +725,8 @@ class Program:
         self.inlined = inline_unknown_helpers(self, known_helpers())
         if self.inlined:
             for mi in self.modules.values():
+                if inline_local_functions(mi.tree):
+                    uncache_attribute_locals(mi.tree)
                 canonicalise(mi.tree)
                 sink_returns(mi.tree)
         self._set_parents()
